@@ -223,6 +223,9 @@ func runShardChild(a childArgs) error {
 	defer env.close()
 	emit(fmt.Sprintf("H\t%s\t%d\t%d", g.schema.coq(), g.maxSize, a.cfg))
 	nsteps := 6 + g.r.IntN(8) // always drawn, so that a truncated replay sees the same random stream
+	if g.large && nsteps > 4 {
+		nsteps = 4
+	}
 	if a.steps > 0 && a.steps < nsteps {
 		nsteps = a.steps
 	}
@@ -325,6 +328,17 @@ func runShardChild(a childArgs) error {
 		}
 		lower := g.lowerTable(docs, reqs)
 		extras = append(extras, g.extraObs(env, docs, reqs)...)
+		if (a.profile == "c08" || a.profile == "c03") && a.cfg != 4 && len(reqs) > 0 {
+			// the same requests answered by a fresh instance (own cache manager) over a copy of the file
+			if x, err := coldAnswers(env, reqs); err == nil {
+				extras = append(extras, x)
+			} else {
+				extras = append(extras, "(XNote 906)")
+			}
+		}
+		if b.note != 0 {
+			extras = append(extras, fmt.Sprintf("(XNote %d)", b.note))
+		}
 		emit(fmt.Sprintf("R\t%s\t%d\t%s\t%s\t%s\t%s", out, info.PointCount, live, pList(qitems), lower, pList(extras)))
 	}
 	emit("E")
@@ -783,4 +797,38 @@ func (g *genState) countOps(env *shardEnv, b batchSpec) (int64, error) {
 		return 0, err
 	}
 	return plan.count.Load(), nil
+}
+
+func coldAnswers(env *shardEnv, reqs []requestSpec) (string, error) {
+	cp := filepath.Join(env.dir, "coldcopy.bbolt")
+	os.Remove(cp)
+	if err := env.sh.VerifDB().BackupToFile(cp); err != nil {
+		return "", err
+	}
+	defer os.Remove(cp)
+	sh2, err := shard.NewShard(cp, env.col, cache.NewManager(-1))
+	if err != nil {
+		return "", err
+	}
+	defer sh2.Close()
+	items := make([]string, 0, len(reqs))
+	for _, rq := range reqs {
+		res, err := sh2.SearchPoints(rq.model())
+		var o string
+		if err != nil {
+			o = "(QError 1)"
+		} else {
+			// ids, distances and scores are what is compared: documents are not repeated
+			for i := range res {
+				res[i].Data = nil
+				res[i].DecodedData = nil
+			}
+			o, err = pRows(res, false)
+			if err != nil {
+				return "", err
+			}
+		}
+		items = append(items, "("+rq.coq()+", "+o+")")
+	}
+	return "(XCold " + pList(items) + ")", nil
 }
